@@ -50,6 +50,8 @@ var c07Programs = []prog{
 	{"rr-commit-vs-autocommit", "I:Sa.b02.s0a|c0|Sa"},
 	{"three-rr-commit-a", "I:b02.b12.b22.s0a.s1a.s2a|c0|c1|c2"},
 	{"rr-commit-vs-rc-commit", "I:b02.b11.s0a.s1a|c0|c1"},
+	// not from a fresh store: a transaction has committed and another has been rolled back before
+	{"two-rr-commit-a-after-earlier-transactions", "I:Sa.b91.s9a.c9.b81.s8a.r8.b02.b12.s0a.s1a|c0|c1"},
 }
 
 var c08Programs = []prog{
@@ -179,10 +181,12 @@ var genC07 = &genPlan{al: &dbconc.AlphaC07,
 			add(al.Programs(1, 1, al.Inits[0], false), 3)
 			add(al.Programs(1, 1, al.Inits[0], true), 1)
 			add(withOpt(al.Programs(1, 1, al.Inits[0], false), "up=1"), 2)
+			add(al.Programs(1, 1, al.Inits[1], false), 2)
 			return
 		}
 		add(al.Programs(1, 1, al.Inits[0], false), 2)
 		add(withOpt(al.Programs(1, 1, al.Inits[0], false), "up=1"), 1) // once more with release points
+		add(al.Programs(1, 1, al.Inits[1], false), 1)                  // and from a store that has seen transactions end
 	}}
 
 var genC08 = &genPlan{al: &dbconc.AlphaC08,
